@@ -66,6 +66,14 @@ var propertyConfigs = map[string]*propertyConfig{
 			"NOT decided: everything numerical (approximation error, precision, noise), operands at different scales (integer ratio rescaling), the VALUE of the scale recorded by a product or a rescale, relinearisation, rotations, plaintext and vector operands, programs"),
 		Trusted:     stdTrusted,
 	},
+	"C20": {
+		ID: "C20", Packages: []string{"./..."}, Level: "proof",
+		Explain: "Per-call structure of the RGSW operations.  rgsw.Evaluator.ExternalProduct, in place and out of place, with no, one and two auxiliary moduli: the two inner products with the gadget rows that were computed (NAMED uf_ep0q/p, uf_ep1q/p: functions of the two components of the input and of the RGSW ciphertext) are the ones handed to the division by P (NAMED uf_moddown), and the quotients are what the receiver holds (finding F45: out of place with two P the Q part came from the receiver's old contents).  " +
+			"BOUNDED instances (one ragged gadget shape, loops unwound; reported under coverage.bounded, never counted as proved): AddLazy (ciphertext operand), MulByXPowAlphaMinusOneLazy, MulByXPowAlphaMinusOneThenAddLazy and Reduce act component by component on both gadget matrices and both bases - 24 ring identities each (\"RGSW ciphertexts add and multiply by X^a - 1 as their plaintexts do\").",
+		Assumptions: append(append([]string{}, engineBAssumptions...), "the inner products of the external product (externalProductInPlaceSinglePAndBitDecomp, externalProductInPlaceMultipleP) and the division by P (ModDownQPtoQNTT) are TRUSTED leaves that write their outputs only; what they compute is named, not interpreted (their digit arithmetic is under the contracts of C02)",
+			"NOT decided: that the external product decrypts to m*g, every noise bound, the 32-bit fast path, RGSW encryption, blind rotation (accumulator loop, test polynomial, key generation), plaintext operands of AddLazy"),
+		Trusted:     stdTrusted,
+	},
 	"C14": {
 		ID: "C14", Packages: []string{"./..."}, Level: "proof",
 		Explain: "Abstract contracts on the collective public-key protocol: GenShare = e_i - s_i*crp with one fresh error draw, in NTT/Montgomery form on Q and P; AggregateShares = +; GenPublicKey = (aggregate, crp). " +
